@@ -45,6 +45,7 @@ type Case struct {
 	EchoMode  string `json:"echo_mode,omitempty"`  // "" same | long | short
 	EchoEvery int    `json:"echo_every,omitempty"` // reply after every k-th message
 	Interfere bool   `json:"interfere,omitempty"`  // unrelated request between receive and reply
+	Conc      int    `json:"concurrent,omitempty"` // > 1: that many copies of the stream run at the same time
 	// StopAfter > 0: the handler ends the call after that many messages.
 	StopAfter int `json:"stop_after,omitempty"`
 
